@@ -675,6 +675,8 @@ SPECS["C01"]["parts"].append([dict(p) for p in SPECS["C03"]["parts"] if p["name"
 SPECS["C01"]["parts"].append([dict(p) for p in SPECS["C11"]["parts"] if p["name"] == "matcher"][0])
 # ... and valid but unusual queries (root name, 255-octet names, odd octets, every opcode / flag) through every listener seam
 SPECS["C01"]["parts"].append([dict(p) for p in SPECS["C03"]["parts"] if p["name"] == "router"][0])
+# ... and ordinary queries over the UDP listener variants whose reply path builds control messages (multi_routes, dual-stack wildcard)
+SPECS["C01"]["parts"].append([dict(p) for p in SPECS["C15"]["parts"] if p["name"] == "udp-multi-route"][0])
 
 # --------------------------------------------------------------------------------------------
 # Properties not (yet) claimed. Kept current: every property without a SPECS entry must be here.
